@@ -8,6 +8,8 @@ import (
 	"math/rand"
 	"net"
 	"net/netip"
+	"os"
+	"path/filepath"
 	"slices"
 	"sort"
 	"strings"
@@ -997,7 +999,16 @@ func (h *c04State) probeAll(pr *c04Probes, e2e *rand.Rand) (obs []string) {
 type c04Filter struct {
 	d            *filtering.DNSFilter
 	globalPaused bool
+	// globalFiltering is the global filtering switch of this instance.
+	globalFiltering bool
 }
+
+// Hosts blocked by the enabled list file resp. by a custom rule of the
+// filtering modules under test.
+const (
+	c04ListHost   = "ads.list.verif.example"
+	c04CustomHost = "ads.custom.verif.example"
+)
 
 // c04NoChecker is a hash-prefix checker that blocks nothing.
 type c04NoChecker struct{}
@@ -1044,6 +1055,21 @@ func (h *c04State) probeFilter(f *c04Filter, cid string, a netip.Addr) (ok bool)
 		verdict[s] = res.IsFiltered && res.Reason == filtering.FilteredBlockedService
 		rep.Event("checkhost_verdicts")
 	}
+	// The rule lists: a host blocked by an enabled list file and one blocked by
+	// a custom rule.  They apply iff the effective filtering switch is on: the
+	// client's own when it opts out of the global settings, else the global.
+	listVerdict := map[string]bool{}
+	for _, host := range []string{c04ListHost, c04CustomHost} {
+		res, err := f.d.CheckHost(host, 1, setts)
+		if err != nil {
+			rep.Inconcl("CheckHost failed: " + err.Error())
+			h.failed = true
+			return false
+		}
+		listVerdict[host] = res.IsFiltered && res.Reason == filtering.FilteredBlockList
+		rep.Event("checkhost_verdicts")
+	}
+	oo := map[bool]string{true: "on", false: "off"}
 	pz := map[bool]string{true: "pausing", false: "empty"}
 	var combo, firstBad, badCombo string
 	var wantsDoc []any
@@ -1062,7 +1088,11 @@ func (h *c04State) probeFilter(f *c04Filter, cid string, a netip.Addr) (ok bool)
 		if !paused {
 			wantRules = list
 		}
-		wantsDoc = append(wantsDoc, map[string]any{"client": name, "effective_list": list, "effective_schedule_pausing": paused})
+		wd := map[string]any{"client": name, "effective_list": list, "effective_schedule_pausing": paused, "effective_filtering_switch": f.globalFiltering}
+		if c != nil && c.spec.OwnSettings {
+			wd["effective_filtering_switch"] = c.spec.Filtering
+		}
+		wantsDoc = append(wantsDoc, wd)
 		bad := ""
 		switch {
 		case name != setts.ClientName:
@@ -1082,6 +1112,23 @@ func (h *c04State) probeFilter(f *c04Filter, cid string, a netip.Addr) (ok bool)
 					break
 				}
 			}
+			effFiltering, fUses, ownF := f.globalFiltering, "global", "none"
+			if c != nil {
+				ownF = oo[c.spec.Filtering]
+				if c.spec.OwnSettings {
+					effFiltering, fUses = c.spec.Filtering, "own"
+				}
+			}
+			fCombo := "client-uses-" + fUses + "-settings:own-filtering-" + ownF + ":global-filtering-" + oo[f.globalFiltering]
+			for _, host := range []string{c04ListHost, c04CustomHost} {
+				if bad == "" && listVerdict[host] != effFiltering {
+					kind := map[string]string{c04ListHost: "list-file-rule", c04CustomHost: "custom-rule"}[host]
+					bad = "list-rules:" + kind + ":" + map[bool]string{true: "blocked-but-want-allowed", false: "allowed-but-want-blocked"}[listVerdict[host]] + ":" + fCombo
+				}
+			}
+			if bad == "" && c != nil {
+				rep.Event("filtering_probe:" + fCombo)
+			}
 		}
 		if bad == "" {
 			if c != nil {
@@ -1100,13 +1147,16 @@ func (h *c04State) probeFilter(f *c04Filter, cid string, a netip.Addr) (ok bool)
 	key := "services:" + firstBad + ":" + badCombo
 	if firstBad == "attribution" {
 		key = "services:attribution-differs-from-storage"
+	} else if strings.HasPrefix(firstBad, "list-rules:") {
+		key = "filtering-module:" + firstBad
 	}
 	h.violate(key,
 		fmt.Sprintf("request (ClientID %q, %s) through the filtering module (global list %v, global schedule %s): client %q, rules of %v apply, blocked-service verdicts %v",
 			cid, a, c04GlobalSvcs, pz[f.globalPaused], setts.ClientName, svc, verdict),
 		map[string]any{"request": map[string]any{"clientid": cid, "addr": a.String()}, "global_services": c04GlobalSvcs,
 			"global_schedule_pausing": f.globalPaused, "got_client": setts.ClientName, "got_services_with_rules": svc,
-			"got_blocked_service_verdicts": verdict, "want_one_of": wantsDoc, "want_tier": tier})
+			"got_blocked_service_verdicts": verdict, "got_blocked_by_rule_list": listVerdict, "global_filtering_switch": f.globalFiltering,
+			"want_one_of": wantsDoc, "want_tier": tier})
 	return false
 }
 
@@ -1628,8 +1678,27 @@ func TestVerifC04(t *testing.T) {
 	var cur *client.Storage
 	var flts []*c04Filter
 	for _, paused := range []bool{false, true} {
+		// The first instance has the global filtering switch on, the second
+		// one off; both have one enabled block list on disk and one custom
+		// rule, and build their engines the way home.startDNSServer does.
+		globalFiltering := !paused
+		dataDir := t.TempDir()
+		if err := os.MkdirAll(filepath.Join(dataDir, "filters"), 0o755); err != nil {
+			rep.Inconcl(err.Error())
+			return
+		}
+		fy := filtering.FilterYAML{Enabled: true, URL: "https://lists.invalid/1.txt", Name: "verif list"}
+		fy.ID = 1
+		if err := os.WriteFile(fy.Path(dataDir), []byte("! Title: verif list\n||"+c04ListHost+"^\n"), 0o644); err != nil {
+			rep.Inconcl(err.Error())
+			return
+		}
 		d, err := filtering.New(&filtering.Config{
-			DataDir:                t.TempDir(),
+			DataDir:                dataDir,
+			FilteringEnabled:       globalFiltering,
+			ProtectionEnabled:      true,
+			Filters:                []filtering.FilterYAML{fy},
+			UserRules:              []string{"||" + c04CustomHost + "^"},
 			BlockedServices:        &filtering.BlockedServices{Schedule: c04Sched(paused), IDs: slices.Clone(c04GlobalSvcs)},
 			SafeBrowsingChecker:    c04NoChecker{},
 			ParentalControlChecker: c04NoChecker{},
@@ -1643,7 +1712,19 @@ func TestVerifC04(t *testing.T) {
 			return
 		}
 		defer d.Close()
-		flts = append(flts, &c04Filter{d: d, globalPaused: paused})
+		d.EnableFilters(false)
+		flts = append(flts, &c04Filter{d: d, globalPaused: paused, globalFiltering: globalFiltering})
+	}
+	// The list host and the custom-rule host must be blocked by the rule
+	// lists when filtering is on, and by nothing else (instance with the
+	// global switch on).
+	for _, host := range []string{c04ListHost, c04CustomHost} {
+		on, err := flts[0].d.CheckHost(host, 1, &filtering.Settings{ProtectionEnabled: true, FilteringEnabled: true})
+		off, _ := flts[0].d.CheckHost(host, 1, &filtering.Settings{ProtectionEnabled: true})
+		if err != nil || on.Reason != filtering.FilteredBlockList || off.IsFiltered {
+			rep.Inconcl(fmt.Sprintf("probe host %s is not decided by the rule lists alone (on: %+v, off: %+v)", host, on, off))
+			return
+		}
 	}
 	// The probe hosts must be hosts the services' rules match.
 	for _, s := range append(slices.Clone(c04GlobalSvcs), "youtube", "facebook", "twitter", "instagram", "tiktok", "netflix", "reddit", "discord") {
@@ -1783,6 +1864,16 @@ func TestVerifC04(t *testing.T) {
 		rep.Inconcl("too few requests of own-settings clients whose safe search is off and whose safe-search object is nil")
 	}
 
+	for _, uses := range []string{"own", "global"} {
+		for _, own := range []string{"on", "off"} {
+			for _, g := range []string{"on", "off"} {
+				ev := "filtering_probe:client-uses-" + uses + "-settings:own-filtering-" + own + ":global-filtering-" + g
+				if rep.Events[ev] < 300 && !rep.Violated() {
+					rep.Inconcl(fmt.Sprintf("%s seen only %d times", ev, rep.Events[ev]))
+				}
+			}
+		}
+	}
 	// All combinations of (client uses own / global blocked services) x (own
 	// schedule pausing / empty) x (global schedule pausing / empty).
 	for _, uses := range []string{"own", "global"} {
